@@ -67,11 +67,17 @@ func GenHistory(t *rapid.T, queries string) History {
 		h.Min = rapid.IntRange(2, h.Max/2).Draw(t, "bigmin")
 		grid = 60
 	}
-	// phases make growth followed by shrinkage likely: bias changes between insert-heavy and delete-heavy
-	phase := 0
+	// phases make growth followed by shrinkage likely: bias changes between insert-heavy and delete-heavy; phase 3 piles
+	// coincident and concentric boxes on one hot spot (a node whose entries all share a point, one nested in all others)
+	phase := rapid.SampledFrom([]int{0, 0, 0, 3}).Draw(t, "phase0")
+	hx, hy := rapid.IntRange(0, grid).Draw(t, "hotx"), rapid.IntRange(0, grid).Draw(t, "hoty")
 	for i := 0; i < n; i++ {
-		if rapid.IntRange(0, 24).Draw(t, "newphase") == 0 {
-			phase = rapid.IntRange(0, 2).Draw(t, "phase")
+		stay := 24
+		if phase == 3 {
+			stay = 70
+		}
+		if rapid.IntRange(0, stay).Draw(t, "newphase") == 0 {
+			phase = rapid.IntRange(0, 3).Draw(t, "phase")
 		}
 		var kinds []string
 		switch phase {
@@ -79,12 +85,17 @@ func GenHistory(t *rapid.T, queries string) History {
 			kinds = []string{"ins", "ins", "ins", "ins", "dup", "del", "q", "delabsent"}
 		case 1:
 			kinds = []string{"del", "del", "del", "del", "ins", "q", "delabsent", "drain"}
+		case 3:
+			kinds = []string{"hot", "hot", "hot", "hot", "hot", "hot", "hot", "hot", "q", "del"}
 		default:
 			kinds = []string{"ins", "del", "ins", "del", "dup", "q", "q", "delabsent"}
 		}
 		k := rapid.SampledFrom(kinds).Draw(t, "op")
 		op := Op{K: k}
 		switch k {
+		case "hot":
+			r := rapid.SampledFrom([]int{0, 0, 0, 1, 2, 3, 5}).Draw(t, "hotr")
+			op.K, op.Box = "ins", [4]int{hx - r, hy - r, 2 * r, 2 * r}
 		case "ins":
 			op.Box = [4]int{rapid.IntRange(0, grid).Draw(t, "x"), rapid.IntRange(0, grid).Draw(t, "y"), rapid.IntRange(0, 3).Draw(t, "w"), rapid.IntRange(0, 3).Draw(t, "h")}
 		case "dup", "del", "delabsent":
